@@ -281,7 +281,7 @@ func vfC05Run(t *testing.T, res *vfResult, c vfC05Case) {
 		cur := int(vfCommon(receiver.Conn).RemoteEpoch())
 		localCID := vfCommon(receiver.Conn).LocalConnectionIDForInboundRecords()
 		bodies := map[uint8][]byte{
-			21: {2, 40},                              // fatal handshake_failure
+			21: {2, 40},                               // fatal handshake_failure
 			23: []byte("PLAINTEXT-CLAIMING-AN-EPOCH"), // application data
 			22: vfHSFragment(1, 40, 9, 0, 40, make([]byte, 40)),
 			26: {0, 0},
